@@ -134,6 +134,10 @@ func getHashForSearchExpression(se *structs.SearchExpression) uint64 {
 		se.FilterOp,
 		getHashForSearchExpressionInput(se.RightSearchInput),
 		getHashForSearchInfo(se.SearchInfo))
+	if se.NegateMatch {
+		// only added for a negated expression, so that the ids of all other persistent queries stay what they are
+		val += ":negated"
+	}
 	return xxhash.Sum64String(val)
 }
 
